@@ -58,7 +58,7 @@ Check (C12_fragment_document_denotes :
 Check (C12_get_frag_iff :
   forall defs n f,
   NoDup (keys defs) -> (get_frag defs n = Some f <-> In (DFrag f) defs /\ iname (fr_name f) = n)).
-Check (C12_undefined_spread_panics_refuted :
+Check (C12_guard_necessary :
   exists defs f,
     In (DFrag f) defs
     /\ (forall o n, In (DOp o) defs -> ~ reach (get_frag defs) (op_sel o) n)
@@ -93,6 +93,26 @@ Check (C12_document_texts_total :
   forall d,
   forallb wf_def (od_defs d) = true -> spreads_defined_b (od_defs d) = true ->
   exists ts, document_runtime_texts d = Ok ts /\ length ts = length (od_defs d)).
+Check (C12_accepted_document_denotes :
+  forall (check : list execdef -> bool),
+  (forall defs, check defs = true -> spreads_defined_b defs = true) ->
+  forall d,
+    check (od_defs d) = true -> forallb wf_def (od_defs d) = true ->
+    (exists ts, document_runtime_texts d = Ok ts /\ length ts = length (od_defs d))
+    /\ (forall o, In (DOp o) (od_defs d) ->
+         exists t names fs,
+           runtime_text (od_defs d) (DOp o) = Ok t
+           /\ read_document t = Some (erase_op o :: map erase_frag fs)
+           /\ Forall2 (fun n f => get_frag (od_defs d) n = Some f) names fs
+           /\ NoDup names
+           /\ forall n, In n names <-> reach (get_frag (od_defs d)) (op_sel o) n)
+    /\ (forall f, In (DFrag f) (od_defs d) ->
+         exists t names fs,
+           runtime_text (od_defs d) (DFrag f) = Ok t
+           /\ read_document t = Some (erase_frag f :: map erase_frag fs)
+           /\ Forall2 (fun n g => get_frag (od_defs d) n = Some g) names fs
+           /\ NoDup names
+           /\ forall n, In n names <-> (reach (get_frag (od_defs d)) (fr_sel f) n /\ n <> iname (fr_name f)))).
 Print Assumptions C12_to_json_roundtrip.
 Print Assumptions C12_to_json_roundtrip_def.
 Print Assumptions C12_closure_terminates.
@@ -105,10 +125,11 @@ Print Assumptions C12_fragment_runtime_panics.
 Print Assumptions C12_operation_document_denotes.
 Print Assumptions C12_fragment_document_denotes.
 Print Assumptions C12_get_frag_iff.
-Print Assumptions C12_undefined_spread_panics_refuted.
+Print Assumptions C12_guard_necessary.
 Print Assumptions C12_parse_ser.
 Print Assumptions C12_printer_builds_no_numbers.
 Print Assumptions C12_text_roundtrip.
 Print Assumptions C12_operation_text_denotes.
 Print Assumptions C12_fragment_text_denotes.
 Print Assumptions C12_document_texts_total.
+Print Assumptions C12_accepted_document_denotes.
